@@ -12,6 +12,7 @@ import (
 	"net/http/httptest"
 	"net/url"
 	"os"
+	"path/filepath"
 	"strings"
 	"sync"
 	"time"
@@ -215,4 +216,157 @@ func (t *updatingTransport) RoundTrip(r *http.Request) (*http.Response, error) {
 		}
 	}
 	return http.DefaultTransport.RoundTrip(r)
+}
+
+// ---- dist-prod: the distributor inside the PRODUCTION BINARY (Prometheus metric factory, real flags) against a distributor that misbehaves ----
+
+func init() { commands["dist-prod"] = distProdMain }
+
+// distProdMain gives the production binary a checkpoint for each of three logs (over the bastion connection it dials), kills it, and starts it
+// again on the same database file with --rest_distro_url pointing at a stub: its first distribution pass finds three checkpoints. The stub
+// answers per log as the scenario says - among the answers a 503 whose reason phrase is not UTF-8 (ISO-8859-1, as some proxies send it), an
+// over-long reason phrase, an empty one. Whatever one log's answer is, the process stays up and every log gets its PUT.
+func distProdMain(args []string) error {
+	fs := flag.NewFlagSet("dist-prod", flag.ExitOnError)
+	bin := fs.String("bin", "", "production binary")
+	out := fs.String("out", "", "trace")
+	dir := fs.String("dir", os.TempDir(), "scratch")
+	seed := fs.Int64("seed", 1, "seed")
+	_ = fs.Parse(args)
+	tw, err := newTraceWriter(*out)
+	if err != nil {
+		return err
+	}
+	scens := [][]string{{"latin1-503", "200", "200"}, {"200", "long-reason-500", "200"}, {"empty-reason-404", "latin1-503", "200"}}
+	for si, dist := range scens {
+		tag := fmt.Sprintf("dp%d-%d", si, *seed)
+		names := []string{"l1", "l2", "l3"}
+		w := world.New(world.Params{Logs: names, MaxSize: 3, NBranch: 1, MaxLines: 6, NWitKeys: 2, Embed: "id", Seed: *seed, RunTag: tag})
+		w = w.ForRun(tag, hashSeed(tag, *seed))
+		db := filepath.Join(*dir, fmt.Sprintf("dist-prod-%d-%d-%d.db", si, *seed, os.Getpid()))
+		os.Remove(db)
+		sb, err := newStubBastion(*dir, tag)
+		if err != nil {
+			return err
+		}
+		cfg := prodCfg{Bin: *bin, Dir: *dir, Tag: tag, Yaml: prodYaml([]*world.World{w}), WitSKey: w.WitKey.SKey(), DB: db, Bastion: sb.addr(), CAFile: sb.caFile, Poll: time.Hour}
+		p, err := startProd(cfg)
+		if err != nil {
+			sb.close()
+			return err
+		}
+		_, cc, _, err := sb.accept(60 * time.Second)
+		if err != nil {
+			p.kill()
+			sb.close()
+			return err
+		}
+		for _, name := range names {
+			c := w.Concretise(name, world.Req{Auth: "good", Old: 0, B: 0, N: 2, Pf: world.Pf{K: "empty"}}, nil)
+			if st, _, rb := postVia(cc, renderBody(w, bastionStep{Kind: "ok"}, c), 30*time.Second); st != 200 {
+				p.kill()
+				sb.close()
+				return fmt.Errorf("set-up of %s answered %d %s", name, st, rb)
+			}
+		}
+		held := prodSnapshot(p, w)
+		p.kill()
+		sb.close()
+		var mu sync.Mutex
+		attempted := map[int]bool{}
+		foreign := 0
+		ln, err := net.Listen("tcp", "127.0.0.1:0")
+		if err != nil {
+			return err
+		}
+		// a raw HTTP/1.1 server: the status line is written by hand
+		go func() {
+			for {
+				c, err := ln.Accept()
+				if err != nil {
+					return
+				}
+				go func(c net.Conn) {
+					defer c.Close()
+					br := bufio.NewReader(c)
+					for {
+						req, err := http.ReadRequest(br)
+						if err != nil {
+							return
+						}
+						body, _ := io.ReadAll(req.Body)
+						li := 0
+						for i, name := range names {
+							l := w.Logs[name]
+							if req.URL.EscapedPath() == fmt.Sprintf("/distributor/v0/logs/%s/byWitness/%s/checkpoint", l.ID, url.PathEscape(w.WitKey.Name)) && string(body) == string(held.raw[name]) && req.Method == http.MethodPut {
+								li = i + 1
+							}
+						}
+						mu.Lock()
+						if li > 0 {
+							attempted[li] = true
+						} else {
+							foreign++
+						}
+						mu.Unlock()
+						line := "HTTP/1.1 404 Not Found"
+						if li > 0 {
+							switch dist[li-1] {
+							case "200":
+								line = "HTTP/1.1 200 OK"
+							case "latin1-503":
+								line = "HTTP/1.1 503 Service temporairement indisponible, r\xe9essayez"
+							case "long-reason-500":
+								line = "HTTP/1.1 500 " + strings.Repeat("very long reason ", 200)
+							case "empty-reason-404":
+								line = "HTTP/1.1 404 "
+							}
+						}
+						fmt.Fprintf(c, "%s\r\nContent-Length: 0\r\nConnection: keep-alive\r\n\r\n", line)
+					}
+				}(c)
+			}
+		}()
+		cfg2 := prodCfg{Bin: *bin, Dir: *dir, Tag: tag + "b", Yaml: cfg.Yaml, WitSKey: cfg.WitSKey, DB: db, Poll: time.Hour, Dist: "http://" + ln.Addr().String()}
+		p2, err := startProd(cfg2)
+		ev := distMainEvent{E: "dist.main", Run: tag, Wit: []string{"valid", "valid", "valid"}, Dist: dist, Attempted: []int{}, Main: "ended"}
+		if err != nil {
+			ev.Main = "failed: " + tailOf(err.Error(), 300)
+		} else {
+			deadline := time.Now().Add(6 * time.Second)
+			for time.Now().Before(deadline) && p2.alive() {
+				mu.Lock()
+				n := len(attempted)
+				mu.Unlock()
+				if n == len(names) {
+					break
+				}
+				time.Sleep(50 * time.Millisecond)
+			}
+			time.Sleep(300 * time.Millisecond)
+			if !p2.alive() {
+				ev.Main = "failed: the binary exited: " + tailOf(p2.log.String(), 400)
+			}
+			p2.kill()
+		}
+		ln.Close()
+		os.Remove(db)
+		os.Remove(db + "-journal")
+		mu.Lock()
+		for i := range names {
+			if attempted[i+1] {
+				ev.Attempted = append(ev.Attempted, i+1)
+			}
+		}
+		ev.Foreign = foreign
+		mu.Unlock()
+		if err := tw.writeRun([]any{ev}); err != nil {
+			return err
+		}
+	}
+	if err := tw.Close(); err != nil {
+		return err
+	}
+	fmt.Printf("DIST-PROD scenarios=%d\n", len(scens))
+	return nil
 }
